@@ -155,20 +155,20 @@ def run_stored(ck, F):
 
 def run_anchors(ck, F):
     tab = json.load(open(os.path.join(os.path.dirname(__file__), "tables", "c09_validation_anchors.json")))
-    ck.rule("C09.validation-not-bypassed", "in each checked constructor the number of rejecting branches (and validating loops) that EVERY successful path must pass does not "
-            "drop below the reference: a validation that becomes conditional (a fast path, an early return, a skipped scan) is no longer must-pass", floor=len(tab))
+    ck.rule("C09.validation-not-bypassed", "in each checked constructor the number of rejecting branches / validating loops that EVERY successful path must pass (counted through the "
+            "fallible same-crate helpers it always calls) does not drop below the reference: a validation that becomes conditional (a fast path, an early return, a skipped "
+            "scan) is no longer must-pass", floor=len(tab))
     for fid, ref in sorted(tab.items()):
         fn = F.resolve(fid)
         if fn is None:
             ck.missing_anchor(fid, "C09.validation-not-bypassed")
             continue
-        d, l = flow.validation_anchors(Body(fn))
-        rd, rl = ref["must_pass_rejecting_branches"], ref["must_pass_validating_loops"]
-        if d + l < rd + rl or d < min(rd, 1):
-            ck.bad("C09.validation-not-bypassed", fid, "%s: %d must-pass rejecting branch(es) and %d must-pass validating loop(s), the reference tree has %d and %d: some validation can now "
-                   "be bypassed on a path that still returns successfully" % (fid, d, l, rd, rl), "%s:%s" % (fn["file"], fn["line"]))
+        n = flow.validation_anchor_total(F, fn)
+        if n < ref:
+            ck.bad("C09.validation-not-bypassed", fid, "%s: %d must-pass validation anchor(s), the reference tree has %d: some validation can now be bypassed on a path that still "
+                   "returns successfully" % (fid, n, ref), "%s:%s" % (fn["file"], fn["line"]))
         else:
-            ck.ok("C09.validation-not-bypassed", fid, "%d + %d must-pass validation anchors (reference %d + %d)" % (d, l, rd, rl))
+            ck.ok("C09.validation-not-bypassed", fid, "%d must-pass validation anchors (reference %d)" % (n, ref))
 
 
 def run_overflow(ck, F):
